@@ -17,6 +17,6 @@ echo "--- demo with change (must fail)"; (cd $W/$D && go test -vet=off -count=1 
 rm -f $W/$D/seeded_*_r4_test.go
 for p in "$@"; do
   echo "--- ./check $p against the changed tree"
-  (cd /verif && VERIF_REPO=$W ./check $p --tier quick 2>&1 | tail -4)
+  (cd ${VERIF_ROOT:-/verif} && VERIF_REPO=$W ./check $p --tier quick 2>&1 | tail -4)
 done
 git -C $W checkout -q -- . ; git -C $W clean -fdq
